@@ -13,7 +13,7 @@ use shared::terms::{Term, TriplePattern};
 use shared::triple::Triple;
 use std::collections::{BTreeMap, BTreeSet};
 
-const RULE: &str = "random fact sets (<=10 facts over 2-4 constants, 1-3 predicates) x 1-3 denial constraints (1-3 premises sharing variables; shapes: none/pair/chain/triangle/independent conflicts + unrelated facts) x every goal shape; each case repeated (6x quick, 20x thorough) in fresh Reasoners (per-instance hash seeds change the subset search order). Non-trivial = the fact set is inconsistent, has >= 2 maximal repairs and the oracle answer set is compared against a non-empty candidate set; distinct by hash of (facts, constraints, goal).";
+const RULE: &str = "random fact sets (<=10 facts over 2-4 constants, 1-3 predicates) x 1-3 denial constraints (1-3 premises sharing variables, one atom in six with a variable predicate, one case in four with facts about its own predicates; shapes: none/pair/chain/triangle/independent conflicts + unrelated facts) x every goal shape; each case repeated (6x quick, 20x thorough) in fresh Reasoners (per-instance hash seeds change the subset search order). Non-trivial = the fact set is inconsistent, has >= 2 maximal repairs and the oracle answer set is compared against a non-empty candidate set; distinct by hash of (facts, constraints, goal).";
 
 fn term_name(i: u32) -> String {
     format!("t{}", i)
@@ -48,9 +48,18 @@ fn gen_case(r: &mut Rng) -> Case {
     let preds: Vec<String> = (0..n_pred as u32).map(|i| format!("p{}", i)).collect();
     let n_facts = match r.below(10) { 0 => r.range(0, 2), 1 => r.range(9, 10), _ => r.range(3, 8) };
     let mut facts = BTreeSet::new();
-    for _ in 0..n_facts {
-        facts.insert((r.pick(&ents).clone(), r.pick(&preds).clone(), r.pick(&ents).clone()));
+    // one case in four talks about its own predicates (facts such as `p0 p1 e0`), so that a
+    // constraint atom with a variable predicate can be joined with an atom about that predicate
+    let meta = r.chance(1, 4);
+    let mut pool = ents.clone();
+    if meta {
+        pool.extend(preds.iter().cloned());
     }
+    for _ in 0..n_facts {
+        let so = |r: &mut Rng| if meta && r.chance(1, 4) { r.pick(&preds).clone() } else { r.pick(&ents).clone() };
+        facts.insert((so(r), r.pick(&preds).clone(), so(r)));
+    }
+    let ents = pool;
     let vars = ["X", "Y", "Z"];
     let n_con = r.range(1, 3);
     let mut constraints = vec![];
@@ -58,7 +67,9 @@ fn gen_case(r: &mut Rng) -> Case {
         let np = r.range(1, 3);
         let mut prem = vec![];
         for _ in 0..np {
-            prem.push((gen_pt(r, &vars, &ents, 85), PT::C(r.pick(&preds).clone()), gen_pt(r, &vars, &ents, 85)));
+            // variable predicates: a variable of its own or one shared with a subject/object position
+            let pred = if r.chance(1, 6) { PT::V(r.pick(&["P", "X", "Y"]).to_string()) } else { PT::C(r.pick(&preds).clone()) };
+            prem.push((gen_pt(r, &vars, &ents, 85), pred, gen_pt(r, &vars, &ents, 85)));
         }
         constraints.push(prem);
     }
